@@ -286,7 +286,7 @@ func TestC12(t *testing.T) {
 		if d.passed > 0 {
 			cl = append(cl, "gov_proposal_executed")
 		}
-		st.Case(nt, map[string]interface{}{"genesis": g, "prefix": prefix, "suffix": suffix, "history": d.log}, cl...)
+		st.Case(nt, map[string]interface{}{"genesis": g, "prefix": prefix, "suffix": suffix, "history": d.log}, append(cl, d.txShapeClasses()...)...)
 	})
 }
 
